@@ -5,6 +5,10 @@
 #define _GNU_SOURCE
 #include "sim.h"
 #include "vobj.h"
+/* elements and probes of two sibling classes that compare with each other by key (knob mixedclass): "object comparison" is all
+   the containers may go by, never the class of what they are handed */
+static int mixed_classes; static unsigned vnew_count;
+#define VNEW(k) ((mixed_classes && (vnew_count++ & 1)) ? vobj_new2(k) : vobj_new(k))
 #include <libast/array.h>
 #include <libast/linked_list.h>
 #include <libast/dlinked_list.h>
@@ -209,7 +213,7 @@ static void list_readback(int slot, const char *when)
     for (long key = -1; key <= readback_keys && (m->len <= 16 || R.cur_op_index % 4 == 0); key++) {
         /* every value there is, present or not: position of the first equal element, the element itself, membership
            (on long lists only after every fourth operation: the sweep is quadratic) */
-        vobj_t probe = vobj_new(key);
+        vobj_t probe = VNEW(key);
         int j = m_find_key(m, key), gi = (int)SPIF_LIST_INDEX(l, probe);
         spif_obj_t gf = SPIF_LIST_FIND(l, probe);
         spif_bool_t gc = SPIF_LIST_CONTAINS(l, probe);
@@ -256,7 +260,7 @@ static void list_pass(const plan_t *p)
             if (!C[s]) FAILM("new", "constructor returned NULL");
         } else if (!l) continue;
         else if (!strcmp(k, "append") || !strcmp(k, "prepend")) {
-            vobj_t e = vobj_new(o->a[1]);
+            vobj_t e = VNEW(o->a[1]);
             spif_bool_t b = k[0] == 'a' ? SPIF_LIST_APPEND(l, e) : SPIF_LIST_PREPEND(l, e);
             if (!b) FAILM("return", "%s returned FALSE", k);
             m_ins(m, k[0] == 'a' ? m->len : 0, e->root, e->key, 0);
@@ -265,7 +269,7 @@ static void list_pass(const plan_t *p)
             long idx = o->na > 3 && o->a[3] == 1 ? resolve_idx(o->a[2], m->len) : o->a[2], j = idx < 0 ? idx + m->len : idx;
             spif_bool_t b;
             if (j > MAXLEN / 2 || m->len >= MAXLEN - 60) continue;
-            e = vobj_new(o->a[1]);
+            e = VNEW(o->a[1]);
             b = SPIF_LIST_INSERT_AT(l, e, (spif_listidx_t)idx);
             if (j < 0) {
                 probe_hit("insert_at_refused");
@@ -293,7 +297,7 @@ static void list_pass(const plan_t *p)
             SPIF_OBJ_DEL(got);
             probe_hit("probe_is_own_element");
         } else if (!strcmp(k, "remove")) {
-            vobj_t probe = vobj_new(o->a[1]);
+            vobj_t probe = VNEW(o->a[1]);
             spif_obj_t got = SPIF_LIST_REMOVE(l, probe);
             int j = m_find_key(m, o->a[1]);
             SPIF_OBJ_DEL(probe);
@@ -321,7 +325,7 @@ static void list_pass(const plan_t *p)
                 if (got) SPIF_OBJ_DEL(got);
             }
         } else if (!strcmp(k, "index") || !strcmp(k, "find") || !strcmp(k, "contains")) {
-            vobj_t probe = vobj_new(o->a[1]);
+            vobj_t probe = VNEW(o->a[1]);
             int j = m_find_key(m, o->a[1]);
             if (k[0] == 'i') {
                 int got = (int)SPIF_LIST_INDEX(l, probe);
@@ -438,7 +442,7 @@ static void vector_readback(int slot, const char *when)
     }
     for (long key = -1; key <= vec_keys && (m->len <= 16 || R.cur_op_index % 4 == 0); key++) {
         /* every value there is, present or not */
-        vobj_t probe = vobj_new(key);
+        vobj_t probe = VNEW(key);
         int present = m_find_key(m, key) >= 0;
         spif_obj_t gf = SPIF_VECTOR_FIND(v, probe);
         spif_bool_t gc = SPIF_VECTOR_CONTAINS(v, probe);
@@ -466,6 +470,44 @@ static void vector_pass(const plan_t *p)
         paint_stack((int)plan_get(p, "stack.paint", 0xA5), 1536);   /* leftover stack contents are an input too */
         v = C[s]; m = &M[s];
         sa_set_tag(i + 1);
+        if (!strcmp(k, "addrvec")) {
+            /* a vector of plain objects, which the library orders by address (spif_obj_comp): a self-contained episode with objects
+               that lie gigabytes apart, so that the order is decided by more than the low 32 bits of an address difference */
+            int n = (int)o->a[1] < 2 ? 2 : (int)o->a[1] > 6 ? 6 : (int)o->a[1];
+            spif_obj_t e[6], sorted[6], *arr;
+            spif_vector_t av;
+            spif_iterator_t it;
+            unsigned long ord = (unsigned long)o->a[2];
+            sa_force_far(1);
+            for (int q = 0; q < n; q++) e[q] = spif_obj_new();
+            sa_force_far(0);
+            av = new_container(2);
+            for (int q = 0; q < n; q++) sorted[q] = e[q];
+            for (int a = 0; a < n; a++) for (int b = a + 1; b < n; b++) if ((uintptr_t)sorted[b] < (uintptr_t)sorted[a]) { spif_obj_t t = sorted[a]; sorted[a] = sorted[b]; sorted[b] = t; }
+            for (int q = 0; q < n; q++) { int j = (int)((ord + (unsigned long)q * 5) % (unsigned long)n); spif_obj_t t = e[q]; e[q] = e[j]; e[j] = t; }      /* seeded insertion order */
+            for (int q = 0; q < n; q++) if (!SPIF_VECTOR_INSERT(av, e[q])) FAILM("return", "insert of a plain object returned FALSE");
+            if ((int)SPIF_VECTOR_COUNT(av) != n) FAILM("count", "vector of %d plain objects reports %d", n, (int)SPIF_VECTOR_COUNT(av));
+            arr = SPIF_VECTOR_TO_ARRAY(av);
+            for (int q = 0; q < n; q++) if (!arr || arr[q] != sorted[q]) FAILM("order", "to_array of %d plain objects (ordered by address, up to %d GiB apart): position %d does not hold the object with the %d-th smallest address", n, 6 * (n - 1), q, q);
+            if (arr) sim_free(arr);
+            it = SPIF_VECTOR_ITERATOR(av);
+            for (int q = 0; q < n; q++) { if (!SPIF_ITERATOR_HAS_NEXT(it) || SPIF_ITERATOR_NEXT(it) != sorted[q]) FAILM("iterator", "iteration over %d plain objects is not in ascending address order at position %d", n, q); }
+            if (SPIF_ITERATOR_HAS_NEXT(it)) FAILM("iterator", "iterator over %d plain objects is not exhausted after %d", n, n);
+            SPIF_ITERATOR_DEL(it);
+            for (int q = 0; q < n; q++) {
+                if (SPIF_VECTOR_FIND(av, sorted[q]) != sorted[q]) FAILM("find", "find of a stored plain object (%d of %d by address) did not return it", q, n);
+                if (!SPIF_VECTOR_CONTAINS(av, sorted[q])) FAILM("find", "contains of a stored plain object (%d of %d by address) is FALSE", q, n);
+            }
+            for (int q = 0; q < n; q++) {
+                spif_obj_t got = SPIF_VECTOR_REMOVE(av, e[q]);
+                if (got != e[q]) FAILM("remove", "remove of a stored plain object did not hand it back");
+                if (SPIF_VECTOR_CONTAINS(av, e[q])) FAILM("remove", "a removed plain object is still reported as contained");
+                spif_obj_del(got);
+            }
+            SPIF_VECTOR_DEL(av);
+            probe_hit("plain_objects_gigabytes_apart");
+            continue;
+        }
         if (!strcmp(k, "new")) {
             if (v) continue;
             C[s] = new_container(2); m->len = 0;
@@ -478,12 +520,12 @@ static void vector_pass(const plan_t *p)
             if (m->len == 1 && o->a[1] == mx) probe_hit("insert_duplicate_of_only_element");
             else if (m->len && o->a[1] == mx) probe_hit("insert_duplicate_of_max");
             if (m->len && o->a[1] < mn) probe_hit("insert_below_min");
-            e = vobj_new(o->a[1]);
+            e = VNEW(o->a[1]);
             if (!SPIF_VECTOR_INSERT(v, e)) FAILM("return", "insert returned FALSE");
             m_ins(m, m->len, e->root, e->key, 0);
         } else if (!strcmp(k, "remove") && o->na > 2 && o->a[2] == 1) {
             /* remove(v, find(v, key)): the probe is the stored element itself */
-            vobj_t probe = vobj_new(o->a[1]);
+            vobj_t probe = VNEW(o->a[1]);
             spif_obj_t own = SPIF_VECTOR_FIND(v, probe), got;
             long r, kk, vv;
             int j = -1;
@@ -511,7 +553,7 @@ static void vector_pass(const plan_t *p)
             SPIF_ITERATOR_DEL(b);
             probe_hit(k[5] == 'b' ? "iterator_one_past_end" : "iterator_abandoned_midway");
         } else if (!strcmp(k, "find") || !strcmp(k, "contains") || !strcmp(k, "remove")) {
-            vobj_t probe = vobj_new(o->a[1]);
+            vobj_t probe = VNEW(o->a[1]);
             int present = m_find_key(m, o->a[1]) >= 0;
             long mn = 1000000, mx = -1000000;
             for (int q = 0; q < m->len; q++) { if (m->key[q] < mn) mn = m->key[q]; if (m->key[q] > mx) mx = m->key[q]; }
@@ -601,7 +643,7 @@ static void map_readback(int slot, const char *when)
     SPIF_ITERATOR_DEL(it);
     /* every key of the universe: get / has_key agree with the dictionary (on big maps only after every fourth operation) */
     for (long key = -1; key <= map_keys && (m->len <= 16 || R.cur_op_index % 4 == 0); key++) {
-        vobj_t probe = vobj_new(key);
+        vobj_t probe = VNEW(key);
         int j = m_find_key(m, key);
         spif_obj_t got = SPIF_MAP_GET(mp, probe);
         spif_bool_t hk = SPIF_MAP_HAS_KEY(mp, probe);
@@ -639,7 +681,7 @@ static void map_pass(const plan_t *p)
         } else if (!mp) continue;
         else if (!strcmp(k, "set") || !strcmp(k, "set_pair")) {
             long key = o->a[1], val = next_val++;
-            vobj_t kk = vobj_new(key), vv = vobj_new(val);
+            vobj_t kk = VNEW(key), vv = VNEW(val);
             long kser = kk->serial, vser = vv->serial;
             int j = m_find_key(m, key), at;
             spif_bool_t b;
@@ -671,7 +713,7 @@ static void map_pass(const plan_t *p)
             if (o->a[2] == 1) { kk->key = 7777; vv->key = 8888; probe_hit("caller_key_mutated_after_set"); }
             SPIF_OBJ_DEL(kk); SPIF_OBJ_DEL(vv);
         } else if (!strcmp(k, "remove")) {
-            vobj_t probe = vobj_new(o->a[1]);
+            vobj_t probe = VNEW(o->a[1]);
             int j = m_find_key(m, o->a[1]);
             spif_obj_t got, ownkey = NULL;
             if (o->na > 2 && o->a[2] == 1 && j >= 0) {
@@ -696,7 +738,7 @@ static void map_pass(const plan_t *p)
             }
         } else if (!strcmp(k, "has_value")) {
             long val = o->a[1] >= 0 && o->a[1] < m->len ? m->val[o->a[1]] : 5;   /* an existing value (by position) or an absent one */
-            vobj_t probe = vobj_new(val);
+            vobj_t probe = VNEW(val);
             int present = 0;
             spif_bool_t got = SPIF_MAP_HAS_VALUE(mp, probe);
             for (int q = 0; q < m->len; q++) if (m->val[q] == val) present = 1;
@@ -724,7 +766,7 @@ static void map_pass(const plan_t *p)
                 int gcls = (into - 1) % 3;
                 gsize = ((into - 1) / 3 + 1) % 3;
                 given = gcls == 0 ? SPIF_LIST_NEW(array) : gcls == 1 ? SPIF_LIST_NEW(linked_list) : SPIF_LIST_NEW(dlinked_list);
-                for (int q = 0; q < gsize; q++) SPIF_LIST_APPEND(given, vobj_new(-5 - q));
+                for (int q = 0; q < gsize; q++) SPIF_LIST_APPEND(given, VNEW(-5 - q));
                 probe_hit("get_list_into_existing");
                 if (gcls) probe_hit("get_list_into_linked_list");
                 if (!gsize) probe_hit("get_list_into_empty_list");
@@ -760,8 +802,11 @@ static void map_pass(const plan_t *p)
 static void exec_kind(const plan_t *p, void (*pass)(const plan_t *))
 {
     long mask = plan_get(p, "classes", 7);
+    mixed_classes = (int)plan_get(p, "mixedclass", 0);
+    if (mixed_classes) probe_hit("elements_of_two_comparable_classes");
     for (cur_cls = 0; cur_cls < NCLS; cur_cls++) {
         if (!(mask & (1 << cur_cls))) continue;
+        vnew_count = 0;
         pass(p);
     }
 }
@@ -775,6 +820,7 @@ static void gen_alloc_knobs(plan_t *p, rng_t *r)
     plan_knob(p, "alloc.realloc", rng_chance(r, 1, 2) ? REALLOC_MOVE : rng_range(r, 1, 2));
     plan_knob(p, "alloc.reuse", rng_range(r, 0, 2));
     { static const int paints[] = { 0x00, 0xA5, 0xFF, 0x5A }; plan_knob(p, "stack.paint", paints[rng_below(r, 4)]); }
+    if (rng_chance(r, 1, 5)) plan_knob(p, "mixedclass", 1);
 }
 static long gen_idx(rng_t *r, int len)
 {
@@ -842,6 +888,7 @@ static void gen_vector(plan_t *p, rng_t *r)
         else if (k < 80) plan_op(p, 0, rng_chance(r, 1, 2) ? "iter_beyond" : "iter_partial", 2, (long)s, (long)rng_below(r, 1000));
         else if (k < 90) plan_op(p, 0, "contains", 2, (long)s, edge);
         else if (k < 96) { if (!ex[1 - s]) { plan_op(p, 0, "dup", 2, (long)s, (long)(1 - s)); ex[1 - s] = 1; len[1 - s] = len[s]; } }
+        else if (k < 97) plan_op(p, 0, "addrvec", 3, (long)s, (long)rng_range(r, 2, 6), (long)rng_below(r, 720));
         else { plan_op(p, 0, "del", 1, (long)s); ex[s] = 0; len[s] = 0; }
     }
 }
